@@ -82,6 +82,8 @@ FIXED_PARTS = [
      "list_condition": L("index", "less_than", 3), "index": {"prim": 2}, "value": L("value", "truthy"),
      "condition": L("value", "not_equal_to", 5)},
     {"p": "map", "condition": L("key", "in_", ["a", "b", "c", "x"]), "key": L("key", "not_equal_to", "b")},
+    {"p": "mol", "condition": L("key", "in_", ["a", "b", 0, 1])}, {"p": "mol", "condition": L("index", "less_than", 2)},
+    {"p": "mol", "condition": L("key", "equal_to", "a"), "index": {"prim": 0}}, {"p": "mol", "condition": L("index", "equal_to", 0), "key": {"prim": "a"}},
     {"p": "list", "condition": L("index", "in_", [0, 1, 2, 3]), "index": L("index", "not_equal_to", 1)},
 ]
 
